@@ -478,6 +478,58 @@ Proof.
   rewrite H1, apply_in_keys. reflexivity.
 Qed.
 
+(* --- the exact behaviour of the broadcast loop, raising datastores included: units are visited in
+   dict order, each exactly once, and the first failure ends the loop *)
+
+Fixpoint bcast_walk (rq : dreq) (l : units) : units :=
+  match l with
+  | [] => []
+  | (k, s) :: t =>
+      match snd (rq_exec rq s) with
+      | Ok _ => (k, fst (rq_exec rq s)) :: bcast_walk rq t
+      | Raise _ => (k, fst (rq_exec rq s)) :: t
+      end
+  end.
+
+Lemma u_get_app_notin : forall (pre t : units) k, ~ In k (u_keys S pre) -> u_get S (pre ++ t) k = u_get S t k.
+Proof.
+  induction pre as [|[k0 s0] pre IH]; intros t k H; cbn in *; [reflexivity|].
+  destruct (k0 =? k) eqn:E; [exfalso; apply H; left; lia|]. apply IH. tauto.
+Qed.
+
+Lemma u_set_app_notin : forall (pre t : units) k v, ~ In k (u_keys S pre) -> u_set S (pre ++ t) k v = pre ++ u_set S t k v.
+Proof.
+  induction pre as [|[k0 s0] pre IH]; intros t k v H; cbn in *; [reflexivity|].
+  destruct (k0 =? k) eqn:E; [exfalso; apply H; left; lia|]. f_equal. apply IH. tauto.
+Qed.
+
+Lemma bcast_loop_walk : forall cfg (rq : dreq), cf_single cfg = false ->
+  forall (t pre : units) last, NoDup (u_keys S (pre ++ t)) ->
+  fst (fst (bcast_loop S code cfg (u_keys S t) (pre ++ t) rq last)) = pre ++ bcast_walk rq t.
+Proof.
+  intros cfg rq Hs t. induction t as [|[k s] t IH]; intros pre last Hnd; [reflexivity|].
+  cbn [u_keys map fst bcast_loop bcast_walk]. unfold exec_on, ctx_key. rewrite Hs.
+  assert (Hk : ~ In k (u_keys S pre)).
+  { unfold u_keys in *. rewrite map_app in Hnd. cbn in Hnd. apply NoDup_remove_2 in Hnd.
+    intros Hin. apply Hnd. apply in_or_app. left. exact Hin. }
+  rewrite (u_get_app_notin pre ((k, s) :: t) k Hk). cbn [u_get]. rewrite Z.eqb_refl.
+  destruct (rq_exec rq s) as [s' [r|e]]; cbn [fst snd];
+    rewrite (u_set_app_notin pre ((k, s) :: t) k s' Hk); cbn [u_set]; rewrite Z.eqb_refl.
+  - replace (pre ++ (k, s') :: t) with ((pre ++ [(k, s')]) ++ t) by (rewrite <- app_assoc; reflexivity).
+    fold (u_keys S t). rewrite IH.
+    + rewrite <- app_assoc. reflexivity.
+    + rewrite <- app_assoc. cbn [app]. unfold u_keys in *. rewrite map_app in *. cbn [map fst] in *. exact Hnd.
+  - reflexivity.
+Qed.
+
+Lemma spec_broadcast_exact : forall gate cfg l rq,
+  cf_bcast cfg = true -> rq_uid rq = 0 -> cf_single cfg = false -> NoDup (u_keys S l) ->
+  spec_respond true gate cfg l rq = (bcast_walk rq l, [], None).
+Proof.
+  intros gate cfg l rq Hb Hu Hs Hnd. unfold spec_respond, sp_bcast. rewrite Hb, Hu. cbn [andb Z.eqb].
+  pose proof (bcast_loop_walk cfg rq Hs l [] None Hnd) as P. cbn [app] in P. rewrite P. reflexivity.
+Qed.
+
 (* single-context mode, broadcast: once on the one context *)
 Lemma spec_broadcast_single : forall gate cfg s rq,
   cf_bcast cfg = true -> rq_uid rq = 0 -> cf_single cfg = true ->
@@ -535,6 +587,14 @@ Lemma c10_broadcast : forall sk, In sk bcast_fes -> forall cfg l rq,
 Proof.
   intros sk H cfg l rq Hb Hu Hs Hnd Hok. destruct (bcast_fes_all sk H) as (Ha & Hh & _).
   rewrite (respond_spec sk Ha), Hh. apply spec_broadcast; assumption.
+Qed.
+
+Lemma c10_broadcast_exact : forall sk, In sk bcast_fes -> forall cfg l rq,
+  cf_bcast cfg = true -> rq_uid rq = 0 -> cf_single cfg = false -> NoDup (u_keys S l) ->
+  respond S code sk cfg l rq = (bcast_walk rq l, [], None).
+Proof.
+  intros sk H cfg l rq Hb Hu Hs Hnd. destruct (bcast_fes_all sk H) as (Ha & Hh & _).
+  rewrite (respond_spec sk Ha), Hh. apply spec_broadcast_exact; assumption.
 Qed.
 
 Lemma c10_broadcast_single : forall sk, In sk bcast_fes -> forall cfg s rq,
